@@ -4,6 +4,7 @@ import (
 	"fmt"
 	"math/rand"
 	"sort"
+	"strings"
 )
 
 // GenCfg bounds the seeded generator of worlds and operations (direction B).  Everything random
@@ -20,6 +21,8 @@ type GenCfg struct {
 	OddIDs        bool // ids containing ':' or '#'
 	Mutations     bool
 	BigLists      bool
+	RichArgs      bool            // enum, list and input-object arguments
+	FragBase      int             // first number of generated fragment names (several operations in one document)
 	Off           map[string]bool // generator features switched off: dirs, vars, frag, dupkey, roottypename, args, alias, vardefault
 }
 
@@ -54,18 +57,60 @@ func (g *gen) argDomain(ty string) []ArgVal {
 		return []ArgVal{{"t": "s", "v": "a"}, {"t": "s", "v": "b"}}
 	case "Boolean":
 		return []ArgVal{{"t": "b", "v": true}, {"t": "b", "v": false}}
+	case "Color":
+		return []ArgVal{{"t": "e", "v": "RED"}, {"t": "e", "v": "GREEN"}}
+	case "Range":
+		return []ArgVal{
+			{"t": "io", "k": []interface{}{"min", "max"}, "v": map[string]interface{}{"min": ArgVal{"t": "i", "v": 1}, "max": ArgVal{"t": "i", "v": 2}}},
+			{"t": "io", "k": []interface{}{"min", "max"}, "v": map[string]interface{}{"max": ArgVal{"t": "i", "v": 1}}},
+		}
+	case "Filter":
+		return []ArgVal{
+			{"t": "io", "k": []interface{}{"lo", "tag", "flags", "sub"}, "v": map[string]interface{}{"lo": ArgVal{"t": "i", "v": 1}, "tag": ArgVal{"t": "s", "v": "a"}}},
+			{"t": "io", "k": []interface{}{"lo", "tag", "flags", "sub"}, "v": map[string]interface{}{
+				"flags": ArgVal{"t": "lst", "v": []interface{}{ArgVal{"t": "b", "v": true}, ArgVal{"t": "b", "v": false}}},
+				"sub":   ArgVal{"t": "io", "k": []interface{}{"min", "max"}, "v": map[string]interface{}{"min": ArgVal{"t": "i", "v": 2}, "max": ArgVal{"t": "i", "v": 2}}}}},
+		}
 	}
 	return nil
+}
+
+// domain of a (possibly list) argument type
+func (g *gen) domainFor(tr TypeRef) []ArgVal {
+	d := g.argDomain(tr.Name)
+	if !tr.List {
+		return d
+	}
+	return []ArgVal{
+		{"t": "lst", "v": []interface{}{d[0], d[1]}},
+		{"t": "lst", "v": []interface{}{d[1]}},
+		{"t": "lst", "v": []interface{}{}},
+	}
 }
 
 func (g *gen) genArgs() []ArgDecl {
 	n := 1 + g.pick(2)
 	var out []ArgDecl
 	for i := 0; i < n; i++ {
-		ty := scalarNames[g.pick(3)]
-		a := ArgDecl{Name: fmt.Sprintf("a%d", i), Type: TypeRef{Name: ty, NN: g.chance(0.3)}}
+		tr := TypeRef{Name: scalarNames[g.pick(3)], NN: g.chance(0.3)}
+		if g.cfg.RichArgs {
+			switch x := g.r.Float64(); {
+			case x < 0.12:
+				tr = TypeRef{Name: "Color", NN: g.chance(0.3)}
+			case x < 0.24:
+				tr = TypeRef{Name: scalarNames[g.pick(3)], List: true, NN: g.chance(0.3), ElemNN: g.chance(0.5)}
+			case x < 0.36:
+				tr = TypeRef{Name: "Filter", NN: g.chance(0.3)}
+			case x < 0.48:
+				tr = TypeRef{Name: "Range", List: true, NN: g.chance(0.3), ElemNN: true}
+			}
+			if !IsScalar(tr.Name) || tr.List {
+				g.tag["rich-args"] = true
+			}
+		}
+		a := ArgDecl{Name: fmt.Sprintf("a%d", i), Type: tr}
 		if !a.Type.NN && g.chance(0.4) {
-			d := g.argDomain(ty)
+			d := g.domainFor(tr)
 			a.Def = d[g.pick(len(d))]
 		}
 		out = append(out, a)
@@ -96,6 +141,14 @@ func Gen(r *rand.Rand, cfg GenCfg, id int) *World {
 		w.Types[t] = &TypeDecl{Kind: "OBJECT", Fields: map[string]*FieldDecl{}}
 	}
 	// abstract types
+	if cfg.RichArgs {
+		w.Types["Color"] = &TypeDecl{Kind: "ENUM", Fields: map[string]*FieldDecl{}, Members: []string{"RED", "GREEN"}}
+		w.Types["Range"] = &TypeDecl{Kind: "INPUT", Order: []string{"min", "max"}, Fields: map[string]*FieldDecl{
+			"min": {Type: TypeRef{Name: "Int"}}, "max": {Type: TypeRef{Name: "Int"}}}}
+		w.Types["Filter"] = &TypeDecl{Kind: "INPUT", Order: []string{"lo", "tag", "flags", "sub"}, Fields: map[string]*FieldDecl{
+			"lo": {Type: TypeRef{Name: "Int"}}, "tag": {Type: TypeRef{Name: "String"}},
+			"flags": {Type: TypeRef{Name: "Boolean", List: true}}, "sub": {Type: TypeRef{Name: "Range"}}}}
+	}
 	// abstract types: an interface / a union over Node types, each declared by ONE service, which
 	// also owns every field that returns it (and, for the interface, its fields on the members)
 	var ifaces, unions []string
@@ -322,6 +375,9 @@ func (g *gen) closeDecl(s *Service) {
 			var refs []string
 			for _, f := range fs {
 				refs = append(refs, td.Fields[f].Type.Name)
+				for _, a := range td.Fields[f].Args {
+					refs = append(refs, a.Type.Name)
+				}
 			}
 			if td.Kind == "INTERFACE" || td.Kind == "UNION" {
 				refs = append(refs, td.Members...)
@@ -334,7 +390,9 @@ func (g *gen) closeDecl(s *Service) {
 					continue
 				}
 				rd := w.Types[rt]
-				if rd.Kind == "OBJECT" && rd.Node {
+				if rd.Kind == "ENUM" {
+					s.Decl[rt] = []string{}
+				} else if rd.Kind == "OBJECT" && rd.Node {
 					s.Decl[rt] = []string{}
 				} else {
 					s.Decl[rt] = append([]string{}, rd.Order...)
@@ -422,7 +480,7 @@ func (g *gen) genFieldVal(fd *FieldDecl, depth int) Val {
 			if i > 0 {
 				key += "|"
 			}
-			d := g.argDomain(a.Type.Name)
+			d := g.domainFor(a.Type)
 			if !a.Type.NN && g.chance(0.2) {
 				key += "~"
 			} else {
@@ -447,6 +505,21 @@ func renderArgValKey(v ArgVal) string {
 		return "FALSE"
 	case "z":
 		return "~"
+	case "lst":
+		var parts []string
+		for _, e := range v["v"].([]interface{}) {
+			parts = append(parts, renderArgValKey(e.(map[string]interface{})))
+		}
+		return "[" + strings.Join(parts, ",") + "]"
+	case "io":
+		var parts []string
+		m := v["v"].(map[string]interface{})
+		for _, k := range strs(v["k"]) {
+			if e, ok := m[k]; ok {
+				parts = append(parts, k+"="+renderArgValKey(e.(map[string]interface{})))
+			}
+		}
+		return "{" + strings.Join(parts, ",") + "}"
 	}
 	return "?"
 }
@@ -454,17 +527,18 @@ func renderArgValKey(v ArgVal) string {
 // ---------------------------------------------------------------------------- operations
 
 type opgen struct {
-	g     *gen
-	op    *Op
-	alias int
-	frag  int
-	tag   map[string]bool
+	g       *gen
+	op      *Op
+	alias   int
+	frag    int
+	provide bool
+	tag     map[string]bool
 }
 
 // GenOp generates an operation that is valid against the merged schema of w.
 func GenOp(r *rand.Rand, w *World, cfg GenCfg, kind string) *Op {
 	g := &gen{r: r, cfg: cfg, w: w}
-	og := &opgen{g: g, op: &Op{Kind: kind, VarDefs: map[string]*VarDef{}, Vars: map[string]ArgVal{}}, tag: map[string]bool{}}
+	og := &opgen{g: g, op: &Op{Kind: kind, VarDefs: map[string]*VarDef{}, Vars: map[string]ArgVal{}}, tag: map[string]bool{}, frag: cfg.FragBase}
 	if g.chance(0.5) {
 		og.op.Name = fmt.Sprintf("Op%d", g.pick(3))
 	}
@@ -524,16 +598,18 @@ func (og *opgen) newVar(ty TypeRef, argDef ArgVal) ArgExpr {
 	// reuse an existing variable of the same type sometimes (one variable at two positions)
 	if !g.cfg.Off["varreuse"] && g.chance(0.25) {
 		for _, v := range og.op.VarOrd {
-			if og.op.VarDefs[v].Type == ty {
+			if _, given := og.op.Vars[v]; og.op.VarDefs[v].Type == ty && (given || !og.provide) {
 				og.tag["var-reuse"] = true
 				return ArgExpr{"t": "var", "n": v}
 			}
 		}
 	}
 	vd := &VarDef{Type: ty}
-	dom := g.argDomain(ty.Name)
+	dom := g.domainFor(ty)
 	val := dom[g.pick(len(dom))]
 	switch {
+	case og.provide:
+		og.op.Vars[name] = val
 	case !ty.NN && !g.cfg.Off["vardefault"] && g.chance(0.25):
 		vd.Def = dom[g.pick(len(dom))]
 		og.tag["var-default"] = true
@@ -553,6 +629,52 @@ func (og *opgen) newVar(ty TypeRef, argDef ArgVal) ArgExpr {
 	og.op.VarOrd = append(og.op.VarOrd, name)
 	og.tag["vars"] = true
 	return ArgExpr{"t": "var", "n": name}
+}
+
+// argExpr writes an argument of type tr: a literal, a variable, or - for lists and input objects -
+// a structure whose leaves are literals and variables (variables nested in input positions).
+func (og *opgen) argExpr(tr TypeRef, def ArgVal, depth int) ArgExpr {
+	g := og.g
+	if tr.List && depth < 2 && g.chance(0.5) {
+		n := 1 + g.pick(2)
+		var es []interface{}
+		for i := 0; i < n; i++ {
+			es = append(es, og.argExpr(TypeRef{Name: tr.Name, NN: true}, nil, depth+1))
+		}
+		og.tag["nested-arg"] = true
+		return ArgExpr{"t": "lst", "v": es}
+	}
+	if td := g.w.Types[tr.Name]; td != nil && td.Kind == "INPUT" && !tr.List && depth < 2 && g.chance(0.6) {
+		m := map[string]interface{}{}
+		var ks []interface{}
+		for _, k := range td.Order {
+			ks = append(ks, k)
+			if g.chance(0.3) {
+				continue
+			}
+			m[k] = og.argExpr(td.Fields[k].Type, nil, depth+1)
+		}
+		og.tag["nested-arg"] = true
+		return ArgExpr{"t": "io", "k": ks, "v": m}
+	}
+	if !g.cfg.Off["vars"] && g.chance(0.45) {
+		vt := tr
+		if !vt.NN && g.chance(0.3) {
+			vt.NN = true
+		}
+		// a variable nested in a list / input object always gets a value: what an ABSENT variable
+		// means there differs between the GraphQL specification (field omitted) and gqlparser (null)
+		og.provide = depth > 0
+		e := og.newVar(vt, def)
+		og.provide = false
+		return e
+	}
+	d := g.domainFor(tr)
+	v := d[g.pick(len(d))]
+	if !tr.NN && g.chance(0.1) {
+		v = ArgVal{"t": "z"}
+	}
+	return ArgExpr{"t": "lit", "v": v}
 }
 
 func (og *opgen) dirs() []Dir {
@@ -606,20 +728,7 @@ func (og *opgen) field(parent, name string, depth int) *Sel {
 			if !a.Type.NN && g.chance(0.35) {
 				continue // omitted: the schema default (or null) applies
 			}
-			if !g.cfg.Off["vars"] && g.chance(0.45) {
-				vt := a.Type
-				if !vt.NN && g.chance(0.3) {
-					vt.NN = true
-				}
-				s.Args[a.Name] = og.newVar(vt, a.Def)
-			} else {
-				d := g.argDomain(a.Type.Name)
-				v := d[g.pick(len(d))]
-				if !a.Type.NN && g.chance(0.1) {
-					v = ArgVal{"t": "z"}
-				}
-				s.Args[a.Name] = ArgExpr{"t": "lit", "v": v}
-			}
+			s.Args[a.Name] = og.argExpr(a.Type, a.Def, 0)
 		}
 	}
 	if !IsScalar(fd.Type.Name) {
